@@ -514,7 +514,18 @@ def cand_edited(case):
     return ce(case)
 
 
-LANES = [Lane('struct', struct_cases, check_struct, 1200, 15000, cand_struct), Lane('edited', edited_cases, check_edited, 1200, 15000, cand_edited), Lane('recover', lambda tier: recover_cases(tier), check_recover, 800, 8000, cand_supported)]
+@st.composite
+def giant_supported_cases(draw, tier):
+    """Bounded operators with windows of 200..1100 samples on traces from one sample up to twice the bound (offline: all four
+    unary operators and since/until; online: the past ones)."""
+    from ..common import giant_cases
+    kind = draw(st.sampled_from(['dt_off', 'dt_off', 'dt_on']))
+    c = draw(giant_cases(F.TUN_PAST + (F.TUN_FUT if kind == 'dt_off' else ()), ('since', 'until') if kind == 'dt_off' else ('since',)))
+    c.update({'kind': kind, 'shape': 'giant-window', 'perm': 0})
+    return c
+
+
+LANES = [Lane('sup_giant', giant_supported_cases, check_supported, 80, 800, None), Lane('struct', struct_cases, check_struct, 1200, 15000, cand_struct), Lane('edited', edited_cases, check_edited, 1200, 15000, cand_edited), Lane('recover', lambda tier: recover_cases(tier), check_recover, 800, 8000, cand_supported)]
 for _k in KINDS:
     LANES.append(Lane('sup_' + _k, (lambda k: lambda tier: supported_cases(tier, k))(_k), check_supported, 1500, 20000, cand_supported))
 for _k in UKINDS:
